@@ -96,12 +96,21 @@ class _FakeSocket(object):
 
     def sendall(self, data):
         data = bytes(data)
+        self.n_sendall = getattr(self, "n_sendall", 0) + 1
+        if getattr(self, "interrupt_at", None) == self.n_sendall:
+            # the call is interrupted (a signal, an error reported by the kernel) after part of the data has been taken
+            self.wire += data[:max(1, len(data) // 2)]
+            self.interrupted = True
+            import errno
+            raise OSError(getattr(self, "interrupt_errno", errno.EINTR), "interrupted")
+        if getattr(self, "closed", False):
+            raise OSError(9, "Bad file descriptor")
         while data:
             n = self.send(data)
             data = data[n:]
 
     def close(self):
-        pass
+        self.closed = True
 
     def shutdown(self, how):
         pass
@@ -147,6 +156,11 @@ def _dispatcher_writes(case, out):
         sock.caps = [c or 1 for c in sock.caps]
         d = SocketConnectionDispatcher(cb)
         d.socket = sock
+        if case.get("interrupt"):
+            import errno
+            sock.interrupt_at = case["interrupt"][0]
+            sock.interrupt_errno = [errno.EINTR, errno.EPIPE, errno.ENOBUFS][case["interrupt"][1] % 3]
+            out.label("a_write_is_interrupted_half_way")
     else:
         d = AsyncoreConnectionDispatcher(cb)
         d.socket = sock
@@ -179,6 +193,14 @@ def _dispatcher_writes(case, out):
             d.handle_write()
     out.label("short_write" if short else "whole_writes")
     out.info = {"nt": short}
+    if getattr(sock, "interrupted", False):
+        # whatever the dispatcher makes of the failed write (it gives the connection up), nothing that was taken is written twice:
+        # the socket holds a prefix of what was handed over
+        out.info = {"nt": True}
+        if bytes(expected[:len(sock.wire)]) != bytes(sock.wire):
+            out.fail("dispatcher", "dispatcher:%s:bytes_written_again_after_an_interrupted_write" % which,
+                     {"handed_over": len(expected), "on_the_socket": len(sock.wire), "caps": case["caps"][:8]})
+        return out
     if bytes(sock.wire) != bytes(expected):
         n = 0
         while n < min(len(sock.wire), len(expected)) and sock.wire[n] == expected[n]:
@@ -664,11 +686,17 @@ def first_send_strategy():
 def dispatcher_writes_strategy():
     op = st.one_of(st.tuples(st.just("send"), st.sampled_from([1, 3, 20, 300, 5000, 70000])).map(list), st.just(["loop"]))
     caps = st.lists(st.sampled_from([0, 1, 2, 3, 7, 100, 4096, 65536, 1 << 30]), min_size=1, max_size=6)
-    return st.builds(lambda d, ops, c: {"sub": "dispatcher_writes", "dispatcher": d, "ops": ops, "caps": c, "tasks": []},
-                     st.sampled_from(["socket", "asyncore"]), st.lists(op, min_size=1, max_size=10), caps)
+    return st.builds(lambda d, ops, c, i: dict({"sub": "dispatcher_writes", "dispatcher": d, "ops": ops, "caps": c, "tasks": []},
+                                               **({"interrupt": i} if i and d == "socket" else {})),
+                     st.sampled_from(["socket", "asyncore"]), st.lists(op, min_size=1, max_size=10), caps,
+                     st.one_of(st.none(), st.none(), st.tuples(st.integers(1, 6), st.integers(0, 2)).map(list)))
 
 
 def _enum_dispatcher_writes():
+    for at in (1, 2, 4):
+        for e in (0, 1, 2):
+            yield {"sub": "dispatcher_writes", "dispatcher": "socket", "caps": [1 << 30], "tasks": [], "interrupt": [at, e],
+                   "ops": [["send", 3], ["send", 300], ["send", 3], ["send", 70000], ["send", 3], ["send", 20]]}
     for d in ("socket", "asyncore"):
         for caps in ([1 << 30], [2], [3, 0, 100], [4096], [65536, 1]):
             yield {"sub": "dispatcher_writes", "dispatcher": d, "caps": caps, "tasks": [],
@@ -725,3 +753,5 @@ def plan(tier):
         "shrink": "ddmin",
         "budget_s": 150 if quick else 1800,
     }
+
+RULE += (' Also: senders running into a reconnect after an earlier connection (with a complete single-preemption sweep), one write of the traffic blocking for 20 virtual seconds (bounded lock waits are modelled against the virtual clock), the real dispatcher classes over a socket double (short writes, would-block, a write interrupted half way, reconnects with output pending).')
